@@ -9,6 +9,7 @@ XO = 1536          # extra observations in outs
 PO = 3072          # pressure constants in vals
 RO = 2560          # result values in vals
 VA_BUF = 1984      # va_list placed in outs when not alloca'ed
+VAO = 1920         # copy of the va_list right after va_start
 NPRESS = 22
 
 
@@ -82,6 +83,8 @@ def c06_mir(proto, body):
         else:
             B.append('add va, o, %d' % VA_BUF)
         B.append('va_start va')
+        for k in (0, 8, 16):
+            B.append('mov i64:%d(o), i64:%d(va)' % (VAO + k, k))
         for i in range(nf, len(proto['args'])):
             t, off = proto['args'][i], offs[i]
             if G.is_blk(t):
@@ -239,7 +242,7 @@ def press_sum(body):
     return s
 
 
-def compare_c06(proto, body, m, impl, vals, resvals, rblk_ptrs):
+def compare_c06(proto, body, m, impl, vals, resvals, rblk_ptrs, engine='gen'):
     bad = []
     if impl['status'] != 'ok':
         return ['%s %s' % (impl['status'], impl.get('detail', ''))]
@@ -285,6 +288,17 @@ def compare_c06(proto, body, m, impl, vals, resvals, rblk_ptrs):
     ftw = int.from_bytes(out[168:170], 'little')
     if ftw != 0xffff:
         bad.append('x87 stack not empty after the results were popped (tag word %04x)' % ftw)
+    if proto['vararg'] and m.get('vastart'):
+        gp, fp, ovm = [int(x) for x in m['vastart'].split(',')]
+        g_gp = int.from_bytes(outs[VAO:VAO + 4], 'little')
+        g_fp = int.from_bytes(outs[VAO + 4:VAO + 8], 'little')
+        g_ov = int.from_bytes(outs[VAO + 8:VAO + 16], 'little')
+        g_rs = int.from_bytes(outs[VAO + 16:VAO + 24], 'little')
+        if (g_gp, g_fp, g_ov - rsp_before) != (gp, fp, ovm):
+            bad.append('va_list after va_start: gp_offset=%d fp_offset=%d overflow_arg_area=args+%d, model %d,%d,args+%d' % (
+                g_gp, g_fp, g_ov - rsp_before, gp, fp, ovm))
+        if engine != 'interp' and g_rs != rsp_before - 192:
+            bad.append('va_list reg_save_area = entry_rsp%+d, frame model entry_rsp-184' % (g_rs - (rsp_before - 8)))
     kind = body['kind']
     if kind in ('pressure', 'call'):
         got = int.from_bytes(outs[XO:XO + 8], 'little')
@@ -310,3 +324,149 @@ def compare_c06(proto, body, m, impl, vals, resvals, rblk_ptrs):
         if f['count'] != 1 or f['rsp'] % 16 != 8:
             bad.append('nested call from the MIR function: probe entered %d times, rsp mod 16 = %d' % (f['count'], f['rsp'] % 16))
     return bad
+
+
+# ---------------------------------------------------------------- frame observation from the generator's listing
+import re
+
+CALLEE_SAVED = (3, 12, 13, 14, 15)
+ARG_REGS = (7, 6, 2, 1, 8, 9, 16, 17, 18, 19, 20, 21, 22, 23)
+_MEM = re.compile(r'\b(i8|u8|i16|u16|i32|u32|i64|u64|f|d|ld|p):(-?\d+)?\((hr\d+)(?:,\s*hr\d+(?:,\s*\d+)?)?\)')
+
+
+def parse_dump(text, vararg):
+    """the function's instruction list after prologue/epilogue insertion -> frame observation"""
+    insns = []
+    for l in text.split('\n'):
+        m = re.match(r'\s*(?:\d+\s+)?([a-z][a-z0-9]*)(?:\s+(.*))?$', l)
+        if not m:
+            continue
+        ops = (m.group(2) or '').split('#')[0].strip()
+        insns.append((m.group(1), [o.strip() for o in ops.split(',')] if ops else [], ops))
+    obs = dict(keep_fp=False, sub=None, saves=[], restores=[], regsave=[], slots=[], used=set(), n=len(insns),
+               epilog_ok=True)
+    i = 0
+    if len(insns) >= 2 and insns[0][0] == 'mov' and insns[0][1] == ['i64:-8(hr4)', 'hr5'] \
+            and insns[1][0] == 'add' and insns[1][1] == ['hr5', 'hr4', '-8']:
+        obs['keep_fp'] = True
+        i = 2
+    if i < len(insns) and insns[i][0] == 'sub' and insns[i][1][:2] == ['hr4', 'hr4'] and re.fullmatch(r'\d+', insns[i][1][2]):
+        obs['sub'] = int(insns[i][1][2])
+        i += 1
+    base = 'hr5' if obs['keep_fp'] else 'hr4'
+    if obs['sub'] is not None:
+        if vararg:
+            for k in range(14):
+                if i >= len(insns) or len(insns[i][1]) != 2:
+                    break
+                m = re.fullmatch(r'(?:i64|d):(-?\d+)?\(hr4\)', insns[i][1][0])
+                if not m or insns[i][1][1] != 'hr%d' % ARG_REGS[k]:
+                    break
+                obs['regsave'].append((ARG_REGS[k], int(m.group(1) or 0)))
+                i += 1
+        seen = set()
+        while i < len(insns) and insns[i][0] == 'mov' and len(insns[i][1]) == 2:
+            m = re.fullmatch(r'i64:(-?\d+)?\((hr4|hr5)\)', insns[i][1][0])
+            r = re.fullmatch(r'hr(\d+)', insns[i][1][1])
+            if not (m and r and int(r.group(1)) in CALLEE_SAVED and m.group(2) == base and int(r.group(1)) not in seen):
+                break
+            seen.add(int(r.group(1)))
+            obs['saves'].append((int(r.group(1)), int(m.group(1) or 0)))
+            i += 1
+    body_start = i
+    j = len(insns) - 1
+    while j >= 0 and insns[j][0] != 'ret':
+        j -= 1
+    e = j - 1
+    if obs['sub'] is not None and j >= 0:
+        if obs['keep_fp']:
+            if e >= 1 and insns[e][0] == 'mov' and insns[e][1] == ['hr5', 'i64:-8(hr4)'] and insns[e - 1][0] == 'add' \
+                    and insns[e - 1][1] == ['hr4', 'hr5', '8']:
+                e -= 2
+            else:
+                obs['epilog_ok'] = False
+        else:
+            if e >= 0 and insns[e][0] == 'add' and insns[e][1] == ['hr4', 'hr4', str(obs['sub'])]:
+                e -= 1
+            else:
+                obs['epilog_ok'] = False
+        rest = []
+        while e >= body_start and len(rest) < len(obs['saves']) and insns[e][0] == 'mov' and len(insns[e][1]) == 2:
+            m = re.fullmatch(r'i64:(-?\d+)?\((hr4|hr5)\)', insns[e][1][1])
+            r = re.fullmatch(r'hr(\d+)', insns[e][1][0])
+            if not (m and r and int(r.group(1)) in CALLEE_SAVED and m.group(2) == base):
+                break
+            rest.append((int(r.group(1)), int(m.group(1) or 0)))
+            e -= 1
+        obs['restores'] = rest[::-1]
+    body_end = e + 1 if j >= 0 else len(insns)
+    for k in range(body_start, max(body_start, body_end)):
+        op, ops, raw = insns[k]
+        for r in re.findall(r'\bhr(\d+)\b', raw):
+            if int(r) <= 15:
+                obs['used'].add(int(r))
+        for ty, disp, b in _MEM.findall(raw):
+            d = int(disp) if disp else 0
+            size = 16 if ty == 'ld' else 8
+            if obs['keep_fp'] and b == 'hr5' and d < 0:
+                obs['slots'].append((d, size))
+            elif not obs['keep_fp'] and b == 'hr4':
+                obs['slots'].append((d, size))
+    if j >= 0:
+        for r in re.findall(r'\bhr(\d+)\b', insns[j][2]):
+            if int(r) <= 15:
+                obs['used'].add(int(r))
+    return obs
+
+
+def frame_query(cid, obs, vararg):
+    return 'frame %s keepfp=%d vararg=%d nslots=%d sub=%d used=%s' % (
+        cid, 1 if obs['keep_fp'] else 0, 1 if vararg else 0, min_slots(obs, vararg),
+        obs['sub'] if obs['sub'] is not None else -1,
+        ','.join(str(r) for r in sorted(set(obs['used']) | set(r for r, _ in obs['saves']))) or '-')
+
+
+def compare_frame(obs, row, vararg):
+    """observed prologue/epilogue of the generated function vs. the Frame model"""
+    bad = []
+    if obs['sub'] is None:
+        # no prologue at all: legal only when nothing needs saving and there is no frame
+        if row['saves'] or obs['slots'] or vararg:
+            bad.append('function has no prologue but uses callee-saved registers %s / stack slots' % [r for r, _ in row['saves']])
+        return bad
+    if not row['found']:
+        bad.append('frame size %d is not a size the frame model produces for >= %d stack slots' % (obs['sub'], min_slots(obs, vararg)))
+        return bad
+    if obs['sub'] % 16 != 8:
+        bad.append('sub rsp, %d leaves rsp misaligned' % obs['sub'])
+    if obs['saves'] != row['saves']:
+        bad.append('prologue saves %s, frame model (callee-saved registers used in the body, at the model\'s offsets) %s' % (obs['saves'], row['saves']))
+    if obs['restores'] != obs['saves']:
+        bad.append('epilogue restores %s but prologue saved %s' % (obs['restores'], obs['saves']))
+    if vararg and obs['regsave'] != row['regsave']:
+        bad.append('register save area stores %s, model %s' % (obs['regsave'], row['regsave']))
+    if not obs['epilog_ok']:
+        bad.append('epilogue does not restore rsp/rbp as the frame model prescribes')
+    return bad
+
+
+def min_slots(obs, vararg):
+    n0 = 0
+    for d, size in obs['slots']:
+        if obs['keep_fp']:
+            n0 = max(n0, (-d - (176 if vararg else 0) + 7) // 8)
+        else:
+            n0 = max(n0, (d + size + 7) // 8)
+    return n0
+
+
+def parse_frame_row(line):
+    w = line.split()
+    d = dict(id=w[0])
+    for x in w[1:]:
+        k, v = x.split('=')
+        if k in ('saves', 'restores', 'regsave'):
+            d[k] = [] if v == '-' else [tuple(int(y) for y in p.split(':')) for p in v.split(',')]
+        else:
+            d[k] = int(v)
+    return d
